@@ -299,6 +299,29 @@ def gen(tier, seed):
     return cases
 
 
+def slow_monitor(case, il, sl):
+    """A connection_timeout bounds how long the server may stay SILENT, not how long the whole
+    handshake may take: a server that answers every step within the timeout gets a connection; one
+    that takes longer than the timeout for a step does not."""
+    t = case.ops[0].split()
+    opts = dict(x.split("=") for x in t[5:])
+    timeout, step = int(opts["timeout"]), int(opts["step-delay"])
+    lines = [l for l in il if l and not l.startswith("#")]
+    opened = any(l.startswith("opened") for l in lines)
+    err = next((l for l in lines if l.startswith("open err")), None)
+    if step + 150 < timeout:
+        if not opened:
+            return ("every handshake step was answered within %d ms (timeout %d ms, three steps), yet: %s" % (step, timeout, err or lines[:2]), "c16-slow-server")
+    elif step > timeout + 150:
+        if opened or err != "open err ConnectionTimeout":
+            return ("the server stayed silent for %d ms per step with a timeout of %d ms: expected ConnectionTimeout, got %s" % (step, timeout, "a connection" if opened else err), "c16-timeout")
+    return None
+
+
 def suites(tier, seed):
-    return [Suite("handshake", "hs", lambda: gen(tier, seed), monitor=monitor, nontrivial=nontrivial, canon=canon, timeout=900, shards=12,
+    return [Suite("slow-handshake-e2e", "hbe2e", lambda: [Case("s%d" % i, [o], {"keep_prefix": 0}) for i, o in enumerate(
+                      ["run 0 0 silent 200 timeout=1500 step-delay=700", "run 0 0 silent 200 timeout=400 step-delay=800", "run 60 60 silent 200 timeout=1000 step-delay=500"] + ([] if tier == "quick" else ["run 0 0 silent 200 timeout=2000 step-delay=900", "run 1 1 silent 200 timeout=600 step-delay=300"]))],
+                  monitor=slow_monitor, nontrivial=lambda c, il: True, compare=False, shards=6, timeout=300,
+                  rule="real connection over the mock transport; the broker waits before each of Start, Tune and OpenOk: 3 x 700 ms with a 1500 ms timeout -> connection (the timeout is about silence, not about the whole handshake); 800 ms per step with a 400 ms timeout -> ConnectionTimeout"),
+            Suite("handshake", "hs", lambda: gen(tier, seed), monitor=monitor, nontrivial=nontrivial, canon=canon, timeout=900, shards=12,
                   rule="good path with option variants (PLAIN / EXTERNAL / custom response, vhost, locale, information); mechanism and locale lists with prefixes, doubles spaces, case changes; frame_max floor lattice; EOF / reset / silence at every stage with and without a 200 ms timeout; sequences up to length %s over {Start, Secure, Tune, OpenOk, Close, heartbeat, malformed, foreign frames} with random push grouping" % ("3 (70 sampled)" if tier == "quick" else "4 (900 sampled)"))]
